@@ -89,6 +89,19 @@ NOTES = {  # seed -> (after, what was strengthened)
  "C03g_m2": ("caught (C03 oracle: exactly one request)", "every third call is answered by a redirect (307 + Location): the generated client must not follow it"),
  "C05g_m1": ("caught (C05 stage A + stage C)", "probe fills EVERY string-valued field the pydantic schema accepts (312 slots, incl. fields the generator ignores, in the configurations where a fallback would pick them up); site table keyed by field@position"),
  "C06g_m2": ("caught (C06 stage A gen_ctype_dispatch + B + C)", "document-SOURCE family: --url against a local HTTP server (status x Content-Type x URL shape x body), --path to directories / missing / binary files; loader choice tied to Norm.content_type_of (also exposed finding source_path_oserror, since repaired: 1071adc)"),
+ "C09g_m2": ("caught (C09 correspondence + oracle)", "Scopes.model_decls_g / model_decls_lit: the class-name fold for any table builder, literal style keyed by the value (literal_classes_distinct_or_shared); declaration sequences and documents under literal_enums"),
+ "C10g_m2": ("caught (C10 oracle)", "a schema OBJECT visited several times (path-item parameter, inline schema of a shared component response): the nullable enum keeps its three states for every operation"),
+ "C11g_m2": ("caught (C11 mypy)", "integral defaults of an integer written in float form; the mypy_union_overlap classifier was narrowed to errors INSIDE the codec functions (it had masked this error)"),
+ "C12g_m1": ("caught (C12 stage A + hash-seed oracle)", "a keyed sorted(...) over a set is an unsorted site; classes whose names differ only in case as responses / union members / imports"),
+ "C12g_m2": ("caught (C12 stage A create_retry_is_unconditional + oracle)", "regenerated fact: _create_schemas re-queues every failed component before any conditional exit; inline ARRAY-of-forward-ref members, nested unions, additionalProperties holding the forward reference, all permutations"),
+ "C13g_m2": ("caught (C13 correspondence + oracle)", "allOf merges in which BOTH declarations carry a default, untyped x every kind, both orders: the last declaration's default wins"),
+ "C14g_m1": ("caught (C14 decode correspondence + oracle)", "enum values outside the BMP, combining marks, NBSP, RTL marks in both enum styles"),
+ "C14g_m2": ("caught (C14 correspondence + oracle)", "3.0 nullable enums under the exactness oracle (unlisted values rejected)"),
+ "C16g_m2": ("caught (C16 oracle)", "enums (string and integer) as direct fields, array items and union members of a MULTIPART body model, literal_enums off vs on"),
+ "C18g_m1": ("caught (C18 oracle)", "two parameters of one operation in DIFFERENT locations whose names are different strings with one python name (N vs its lower / snake twin), every location pair"),
+ "C19g_m2": ("caught (C19 oracle)", "the fixed history (generation, user files everywhere, regeneration of another document) also runs for the pdm and setup flavours in the quick tier"),
+ "C20g_m1": ("caught (C20 oracle)", "defaults on the REFERENCING site (single-reference wrapper vs inline) for every scalar kind incl. every falsy value, in properties and parameters"),
+ "C20g_m2": ("caught (C20 oracle)", "one component response under two / three status codes of one operation; canned responses for every documented status executed in both forms"),
  "C19c_m1": ("caught (C19 oracle + hook_cwd correspondence)", "post hooks: a marker hook that rewrites *.py below its working directory, all four flavours, with sentinel files around the output directory; Fs.hook_cwd"),
  "C10_m1": ("caught (C10 oracle, C02 correspondence)", "falsy-but-present values (0, \"\", false, {}, []) in the C02 atlas and the C10 grid"),
  "C10_m2": ("caught (C10 oracle; C15 caught it at once)", "allOf-refined required properties in the C10 grid"),
